@@ -383,8 +383,12 @@ class MultitaskMultivariateNormal(MultivariateNormal):
                 # slice x slice or indices x slice or slice x indices
                 if isinstance(row_idx, slice):
                     row_idx = torch.arange(num_rows)[row_idx]
+                else:
+                    row_idx = _normalize_index(row_idx, num_rows)
                 if isinstance(col_idx, slice):
                     col_idx = torch.arange(num_cols)[col_idx]
+                else:
+                    col_idx = _normalize_index(col_idx, num_cols)
                 row_grid, col_grid = torch.meshgrid(row_idx, col_idx, indexing="ij")
                 indices = (row_grid * num_cols + col_grid).reshape(-1)
                 new_cov = self.lazy_covariance_matrix[batch_idx + (indices,)][..., indices]
@@ -393,6 +397,8 @@ class MultitaskMultivariateNormal(MultivariateNormal):
                 )
             else:
                 # row_idx and col_idx have pairs of indices
+                row_idx = _normalize_index(row_idx, num_rows)
+                col_idx = _normalize_index(col_idx, num_cols)
                 indices = row_idx * num_cols + col_idx
                 new_cov = self.lazy_covariance_matrix[batch_idx + (indices,)][..., indices]
                 return MultivariateNormal(
@@ -404,8 +410,10 @@ class MultitaskMultivariateNormal(MultivariateNormal):
         return f"MultitaskMultivariateNormal(mean shape: {self._output_shape})"
 
 
-def _normalize_index(i: int, dim_size: int) -> int:
-    if i < 0:
+def _normalize_index(i, dim_size: int):
+    if torch.is_tensor(i):
+        return torch.where(i < 0, i + dim_size, i)
+    elif i < 0:
         return dim_size + i
     else:
         return i
